@@ -23,6 +23,18 @@ def cases(rng, tier):
         pat = gen.arrange(comp, rng)
         s = gen.spell(pat, rng)
         yield Case(["q region " + s, "q specregion " + s], {"kind": "exhaustive-composition"}, nontrivial=(comp[0] + comp[1] > 0))
+    # raw constructor arguments with white space (blocks of ten, line breaks, tabs): same answers as the normalised word
+    for kind, s in gen.rand_seqs(rng, 40 if tier == "quick" else 400, 60):
+        yield Case(gen.ws_lines(["q region " + s, "q specregion " + s], rng), {"kind": "whitespace-input"})
+    for comp in [(5, 0, 15), (8, 1, 11), (1, 8, 11), (15, 0, 25), (0, 15, 25), (7, 0, 13), (3, 2, 15)]:
+        s = gen.spell(gen.arrange(comp, rng), rng)
+        for k in range(6):
+            for raw in [gen.ws_layouts(s, rng)[k]]:
+                from ..real import hex6
+                yield Case(["mkq %s region" % hex6(raw), "mkq %s specregion" % hex6(raw)], {"kind": "whitespace-input-boundary"})
+    # long sequences with > 127 / > 255 charged or neutral residues, net charge beyond +-127, length > 256
+    for s in gen.large_regime():
+        yield Case(["q region " + s, "q specregion " + s], {"kind": "large-regime"})
     # boundary-targeted: FCR / NCPR exactly on 1/4, 7/20 for larger N
     for N2 in (60, 100, 200, 400, 1000):
         for k in (N2 // 4, N2 * 7 // 20):
